@@ -130,8 +130,12 @@ class VersionConstraint:
     def __lt__(self, other):
         if not isinstance(other, self.__class__):
             return NotImplemented
-        # we compare tuples, version first
-        return (self.version, self.comparator).__lt__((other.version, other.comparator))
+        # we compare tuples, version first; the text of the version comes last so
+        # that equal versions written differently ("1.0" and "1.0.0") have a fixed
+        # order and the canonical text does not depend on the input order
+        return (self.version, self.comparator, str(self.version)).__lt__(
+            (other.version, other.comparator, str(other.version))
+        )
 
     def is_star(self):
         return self.comparator == "*"
